@@ -8,6 +8,25 @@ from harness.sched import core, instr
 from harness import fakes3
 
 
+def partial_subscriber(I, name, only):
+    """A duck-typed subscriber that HAS only the listed on_<type> methods (the library asks with
+    hasattr); not derived from anything.  Records like RecordingSubscriber."""
+    ns = {'name': name, 'raise_in': set(), 'events': None}
+
+    def mk(kind):
+        def cb(self_, future, **kw):
+            rec = dict(sub=name, t=future.meta.transfer_id)
+            if kind == 'progress':
+                rec['n'] = kw.get('bytes_transferred')
+            if kind == 'done':
+                rec['done'] = bool(future.done())
+            I.log('on_' + kind, **rec)
+        return cb
+    for kind in only:
+        ns['on_' + kind] = mk(kind)
+    return type('PartialSubscriber', (), ns)()
+
+
 PROGRESS_YIELD = [False]     # set per run by library._run: on_progress is a scheduling point
 QUEUED_YIELD = [False]       # idem for on_queued
 
@@ -211,6 +230,8 @@ def run_scenario(scenario, chooser=None, config_kwargs=None, max_steps=100000,
         env.execs = execs
 
         def sub(**kw):
+            if kw.get('only') is not None:
+                return partial_subscriber(I, kw.get('name', 'sub'), kw['only'])
             return RecordingSubscriber(I, **kw)
         env.sub = sub
 
